@@ -30,7 +30,7 @@ META = {
                    'capture failure, save failure, threaded operations; replays that succeed, name a missing id, miss a key, whose '
                    'playback function raises or is interrupted), distributed over three long-lived caller threads, followed by a probe '
                    'operation or replay whose result is compared with the same probe on a fresh recorder; idle-state observers are '
-                   'read after every run and a probe interception outside any operation must be a pure pass-through on every thread. Also: forced sampling requested while idle / after a discard / in a skipped class / after a switch-off, a storage whose abort fails, and unusable sampling rates.'),
+                   'read after every run and a probe interception outside any operation must be a pure pass-through on every thread. Also: forced sampling requested while idle / after a discard / in a skipped class / after a switch-off, a storage whose abort fails, and unusable sampling rates. Fire-and-forget worker threads that are still inside an interception when the operation (or the replay) ends, pre-empted at every line point in turn.'),
     'level_note': 'Trusted: strict hand-off between caller threads (one runs at a time), spy cassette, probe comparison code in this file.',
     'rule': ('evaluation = one history + probe; non-trivial = the history contained at least one abnormal run (anything but op_ok / '
              'replay_ok); distinct = distinct event-log digest (kinds, threads, outcomes, probe result).'),
